@@ -1605,6 +1605,8 @@ pub fn run_history<R: Rec>(ops: &[Op], cfg: &RunCfg) -> Outcome {
     tok::plan_reset();
     #[cfg(truc_verif_hooks)]
     alloc::harness(|| drop(truc_runtime::verif::take_anomalies()));
+    #[cfg(truc_verif_hooks)]
+    let hook_counters_before = truc_runtime::verif::counters();
     let base_bytes = alloc::live_bytes();
     {
         let src = Src::new();
@@ -1642,13 +1644,15 @@ pub fn run_history<R: Rec>(ops: &[Op], cfg: &RunCfg) -> Outcome {
         e.drain_hooks();
         #[cfg(truc_verif_hooks)]
         {
+            // the hook's counters are cumulative per thread: report what this history added
             let c = truc_runtime::verif::counters();
+            let b = hook_counters_before;
             alloc::harness(|| {
-                e.out.probes.insert("hook_reads", c.reads);
-                e.out.probes.insert("hook_writes", c.writes);
-                e.out.probes.insert("hook_refs", c.refs);
-                e.out.probes.insert("hook_zst_accesses", c.zst_accesses);
-                e.out.probes.insert("hook_stores_to_misaligned_destination", c.stores_to_misaligned_destination);
+                e.out.probes.insert("hook_reads", c.reads - b.reads);
+                e.out.probes.insert("hook_writes", c.writes - b.writes);
+                e.out.probes.insert("hook_refs", c.refs - b.refs);
+                e.out.probes.insert("hook_zst_accesses", c.zst_accesses - b.zst_accesses);
+                e.out.probes.insert("hook_stores_to_misaligned_destination", c.stores_to_misaligned_destination - b.stores_to_misaligned_destination);
             });
         }
         let Engine { world, src, scratch, addr_scratch, .. } = e;
